@@ -3,6 +3,7 @@
   symmetry of every closure, and the diagonal fast paths against gradient-of-gradient (over ℝ).
 -/
 import Optyx.Lemmas.JacCompile
+import Optyx.Lemmas.JacLoop
 
 namespace Optyx.Py.Jac
 open Optyx Optyx.Py Optyx.Generated NumAlg
@@ -38,7 +39,7 @@ theorem hessClo_symm {α : Type} [NumAlg α] [DerivAlg α] (clo : HessClo) (x : 
     split
     · exact isSymm_sanitize2 (isSymm_scatterDiag (isSymm_zeros2 n) _ _)
     · exact isSymm_scatterDiag (isSymm_zeros2 n) _ _
-  | general V H => exact isSymm_sanitize2 (isSymm_mirrorUpper _ _)
+  | general V H => exact isSymm_sanitize2 (isSymm_hessLoop _ _)
 
 /-! ### the general path -/
 
@@ -73,7 +74,7 @@ theorem general_run_entry (σ : Nat → ℝ) (e : Expr) (V : List Var) (x : List
       some (if i ≤ j then denote (envOf V x) σ (hessEntry e V[i] V[j])
             else denote (envOf V x) σ (hessEntry e V[j] V[i])) := by
   simp only [HessClo.run, sanitize2_real]
-  rw [entry?_mirrorUpper]
+  rw [entry?_hessLoop, entry?_mirrorUpper]
   simp only [hi, hj, and_self, ite_true]
   rw [computeHessian_getD e V hi hj, computeHessian_getD e V hj hi]
 
